@@ -630,6 +630,14 @@ def random_case(rnd, exact):
             cfg["tp"] += rnd.randint(0, 300)
             cfg["ramp"] = min(cfg["ramp"], cfg["wt"])
     idx = rnd.randrange(total)
+    # runner with the optional completion API: never complete within the iterations (mostly) / complete early
+    rc = 0
+    r = rnd.random()
+    if kind == "iter" and r < 0.15:
+        rc = cfg["wi"] + cfg["it"] + 3
+    elif r > 0.95:
+        rc = rnd.randint(1, 5)
+    cfg["rc"] = rc
     cfg.update(sched=sched, tnum=tnum, tden=tden, tunit=tunit, runit=runit, clients=clients, idx=idx, total=total, tps=tps, client=rnd.choice([idx, idx + 10]), task="task-%d" % rnd.randint(1, 3))
     if sched == "unthrottled":
         cfg.update(tnum=1, tden=1, tunit="ops")
@@ -656,12 +664,269 @@ def random_case(rnd, exact):
     return case
 
 
+def edge_case(rnd):
+    """Tick-exact run on a 1/1024 s or 1/2048 s grid of a deterministically throttled client that comes back within the last
+    few ticks (fractions of a millisecond) before / exactly at / just after the scheduled time of its next request."""
+    tps = rnd.choice([1024, 1024, 2048])
+    clients = rnd.choice([1, 1, 2])
+    tnum, tden = rnd.choice([(2, 1), (4, 1), (8, 1), (16, 1)])
+    interval = clients * tps * tden // tnum
+    kind = rnd.choice(["iter", "iter", "time"])
+    n = rnd.randint(4, 10)
+    cfg = {"kind": kind, "wi": 0, "it": 0, "wt": 0, "tp": 0, "ramp": 0, "rc": 0}
+    if kind == "iter":
+        cfg["wi"] = rnd.choice([0, 1, 2])
+        cfg["it"] = max(1, n - cfg["wi"])
+    else:
+        cfg["wt"] = rnd.choice([0, 2]) * interval
+        cfg["tp"] = n * interval - cfg["wt"]
+    idx = rnd.randrange(clients)
+    tunit = rnd.choice(["ops", "ops", "docs"])
+    cfg.update(sched="deterministic", tnum=tnum, tden=tden, tunit=tunit, runit=tunit, clients=clients, idx=idx, total=clients, tps=tps, client=idx, task="task-edge")
+    script = []
+    late = 0
+    for _ in range(n + 2):
+        r = rnd.choice([1, 1, 1, 2, 2, 3, 0, 0, -1, -2, 5, interval // 2])
+        dur = max(1, interval - late - r)
+        d1, d2 = rnd.choice([0, 0, 1]), rnd.choice([0, 0, 1])
+        if dur < d1 + d2 + 1:
+            d1 = d2 = 0
+        script.append({"d1": d1, "svc": dur - d1 - d2, "d2": d2, "out": "ok", "w": 1, "ext": False})
+        late = max(0, late + dur - interval)
+    t0 = rnd.choice([0, 3 * tps, 17 * tps + 5])
+    return {"src": "random-edge", "exact": True, "cfg": cfg, "t0": t0, "script": script, "incs": [], "variant": random_variant(rnd)}
+
+
+# ---------------------------------------------------------------------------------------------------
+# one schedule element through the REAL Allocator -> ClientAllocations -> AsyncIoAdapter -> AsyncExecutor path
+# ---------------------------------------------------------------------------------------------------
+def _make_recording_sampler_class():
+    from esrally.driver import driver
+
+    class RecordingSampler(driver.Sampler):
+        """The real Sampler; every sample is attributed to the executor coroutine (asyncio task) that added it."""
+
+        def __init__(self, start_timestamp):
+            super().__init__(start_timestamp)
+            self.by_task = {}
+            self.orphans = []
+
+        def add(self, *args, **kwargs):
+            super().add(*args, **kwargs)
+            new = self.samples
+            run = self.by_task.get(asyncio.current_task())
+            (run.pending if run is not None else self.orphans).extend(new)
+
+    return RecordingSampler
+
+
+def _adapter_config():
+    from esrally import config
+    from esrally.utils import opts
+
+    cfg = config.Config()
+    S = config.Scope.application
+    cfg.add(S, "driver", "profiling", False)
+    cfg.add(S, "driver", "assertions", False)
+    cfg.add(S, "client", "hosts", opts.TargetHosts("127.0.0.1:9200"))
+    cfg.add(S, "client", "options", opts.ClientOptions("timeout:60"))
+    cfg.add(S, "mechanic", "distribution.version", "8.6.1")
+    return cfg
+
+
+def element_client_cfg(ecase, j, i):
+    """cfg of the i-th client of sub-task j (1-based j). idx / total / clients are placeholders here: TraceClientLoop.tla derives
+    them from the element's declaration (Placement)."""
+    t = ecase["tasks"][j - 1]
+    cfg = {k: t[k] for k in ("kind", "wi", "it", "wt", "tp", "sched", "tnum", "tden", "tunit", "runit", "clients")}
+    cfg.update(ramp=ecase["ramp"], tps=ecase["tps"], task=t["name"], rc=0, idx=0, total=1, client=-1)
+    return cfg
+
+
+def execute_element(ecase):
+    """ecase: {"src", "exact", "tps", "t0", "cap" (0 = none), "ramp", "tasks": [{"name","clients",kind,wi,it,wt,tp,sched,tnum,tden,
+    tunit,runit}], "scripts": {"<logical client>": [steps]}, "variant"}.  The element (a plain task, or a `parallel` with an optional
+    clients cap and ramp-up) is allocated by the real Allocator, cut into steps by the real ClientAllocations and every step is run
+    by the real AsyncIoAdapter on the virtual clock.  Returns [(item, info)], one per (client, task allocation)."""
+    global _RUN
+    ensure_rally_home()
+    from esrally import client as es_client_mod
+    from esrally import exceptions
+    from esrally.driver import driver
+    from esrally.track import track
+
+    _install_runner()
+    tps = ecase["tps"]
+    var = ecase.get("variant") or {}
+    tasks = []
+    for j, t in enumerate(ecase["tasks"], 1):
+        tasks.append(build_task({"cfg": element_client_cfg(ecase, j, 0), "variant": var}))
+    cap = ecase["cap"]
+    if len(tasks) == 1 and cap == 0 and not ecase.get("force_parallel"):
+        element = tasks[0]
+    else:
+        element = track.Parallel(tasks, clients=cap if cap > 0 else None)
+    trk = track.Track(name="verif", challenges=[track.Challenge(name="c", default=True, schedule=[element])])
+    cum = [0]
+    for t in ecase["tasks"]:
+        cum.append(cum[-1] + t["clients"])
+    total = cap if cap > 0 else cum[-1]
+    clock = VirtualClock()
+    clock.now = ecase["t0"] / tps
+    FakeClient = _make_fake_client_class()
+    RecordingSampler = _make_recording_sampler_class()
+    results = []
+    patches = []
+
+    def patch(obj, attr, value):
+        patches.append((obj, attr, getattr(obj, attr)))
+        setattr(obj, attr, value)
+
+    clock.install()
+    try:
+        allocations = driver.Allocator([element]).allocations
+        ca = driver.ClientAllocations()
+        for client_id, row in enumerate(allocations):
+            ca.add(client_id, row)
+        step = 0
+        for index in range(len(allocations[0])):
+            if ca.is_joinpoint(index):
+                continue
+            task_allocations = ca.tasks(index)
+            sampler = RecordingSampler(start_timestamp=clock.now)
+            cancel, complete = threading.Event(), threading.Event()
+            runs_by_ta, runs_by_client, runs = {}, {}, []
+            t0 = clock.now
+            for alloc in task_allocations:
+                ta = alloc.task
+                j = 1 + [id(x) for x in tasks].index(id(ta.task))
+                k = step * total + alloc.client_id  # the logical client of the element that runs on this client in this step
+                i = k - cum[j - 1]
+                if not 0 <= i < ecase["tasks"][j - 1]["clients"]:
+                    i = ta.client_index_in_task
+                    k = cum[j - 1] + i
+                cfg = element_client_cfg(ecase, j, i)
+                cfg.update(idx=k, total=total)  # for statistics / messages only: the trace specification derives both itself
+                case = {
+                    "cfg": cfg,
+                    "t0": int(round(t0 * tps)),
+                    "script": ecase["scripts"].get(str(k), []),
+                    "incs": [],
+                    "exact": ecase.get("exact", True),
+                    "elem": {"use": True, "cap": cap, "clients": [t["clients"] for t in ecase["tasks"]], "j": j, "i": i},
+                }
+                run = _Run(case, clock=clock)
+                run.sampler, run.cancel, run.complete = sampler, cancel, complete
+                runs_by_ta[id(ta)] = run
+                runs_by_client[alloc.client_id] = run
+                runs.append(run)
+            real_schedule_for = driver.schedule_for
+
+            def observed_schedule_for(task_allocation, parameter_source, _real=real_schedule_for, _runs=runs_by_ta):
+                return ObservedSchedule(_real(task_allocation, parameter_source), _runs[id(task_allocation)])
+
+            def create_async(self_, api_key=None, client_id=None, _runs=runs_by_client):
+                run = _runs[client_id]
+                run.es_client_id = client_id
+                return FakeClient(run)
+
+            patch(driver, "schedule_for", observed_schedule_for)
+            patch(es_client_mod.EsClientFactory, "__init__", lambda self_, *a, **k: None)
+            patch(es_client_mod.EsClientFactory, "create_async", create_async)
+            aborted = ""
+            try:
+                contexts = {a.client_id: driver.ClientContext(client_id=a.client_id, parent_worker_id=0) for a in task_allocations}
+                adapter = driver.AsyncIoAdapter(_adapter_config(), trk, task_allocations, sampler, cancel, complete, "continue", contexts, 0)
+                try:
+                    run_coroutine(clock, adapter.run())
+                except exceptions.RallyError as ex:
+                    aborted = "%s: %s" % (type(ex).__name__, ex)
+            finally:
+                for obj, attr, old in reversed(patches):
+                    setattr(obj, attr, old)
+                del patches[:]
+            for run in runs:
+                run.tail_samples = run.take_samples()
+                run.cfg["client"] = run.es_client_id if run.es_client_id is not None else -1
+                item, info = _project(run.case, run, aborted, 1)
+                if run.case["exact"] and not item["exact"]:
+                    item, _ = _project(run.case, run, aborted, FINE)
+                item["end"]["stray"] += len(sampler.orphans)
+                results.append((item, info))
+            step += 1
+    finally:
+        clock.uninstall()
+        _RUN = None
+    return results
+
+
+def random_element_case(rnd):
+    """A `parallel` element (sometimes a plain multi-client task): ramp-up over several sub-tasks, or an over-committed element."""
+    tps = rnd.choice([1, 4])
+    flavour = rnd.choice(["ramp", "ramp", "over", "over", "plain"])
+    if flavour == "ramp":
+        clients = rnd.choice([[1, 1], [2, 2], [1, 2, 1], [1, 1, 2], [2, 1, 1], [1, 1, 1, 1], [2, 2, 4], [4, 2, 2], [1, 1, 2, 4]])
+        cap = 0
+    elif flavour == "over":
+        clients = rnd.choice([[1, 1, 1], [1, 1], [2, 2], [2, 1, 1], [1, 1, 1, 1], [2, 2, 2], [1, 2]])
+        cap = rnd.choice([c for c in (1, 2, 3) if c < sum(clients)])
+    else:
+        clients = [rnd.choice([2, 4])]
+        cap = 0
+    total = cap if cap > 0 else sum(clients)
+    ramp = 0
+    wt = 0
+    if flavour in ("ramp", "plain") and rnd.random() < 0.85:
+        ramp = total * rnd.randint(1, 3)  # ramp * idx / total integral in ticks
+        wt = ramp + rnd.choice([0, 0, tps, 2 * tps])
+    tasks = []
+    for n, c in enumerate(clients):
+        sched = rnd.choice(["unthrottled", "deterministic"])
+        tnum, tden = rnd.choice([(1, 2), (1, 1), (2, 1)])
+        while (c * tps * tden) % tnum:
+            tnum, tden = rnd.choice([(1, 2), (1, 1)])
+        t = {"name": "t%d" % (n + 1), "clients": c, "kind": "time", "wi": 0, "it": 0, "wt": 0, "tp": 0, "sched": sched, "tnum": tnum, "tden": tden, "tunit": "ops", "runit": "ops"}
+        if sched == "unthrottled":
+            t.update(tnum=1, tden=1)
+        if ramp > 0 or rnd.random() < 0.4:
+            t.update(kind="time", wt=wt if ramp > 0 else rnd.choice([0, tps]), tp=rnd.randint(1, 3) * max(tps, c * tps * tden // tnum if sched != "unthrottled" else tps))
+        else:
+            t.update(kind="iter", wi=rnd.choice([0, 1, 2]), it=rnd.randint(1, 4))
+        tasks.append(t)
+    scripts = {}
+    for k in range(sum(clients)):
+        sc = []
+        for _ in range(rnd.randint(0, 8)):
+            d1, d2 = rnd.choice([0, 0, 1]), rnd.choice([0, 0, 1])
+            svc = rnd.randint(0, 2 * tps + 1)
+            if d1 + svc + d2 == 0:
+                svc = 1
+            outk = "ok" if rnd.random() < 0.85 else rnd.choice(["api", "transport", "timeout"])
+            sc.append({"d1": d1, "svc": svc, "d2": d2, "out": outk, "w": rnd.choice([1, 1, 2]) if outk == "ok" else 0, "ext": False})
+        scripts[str(k)] = sc
+    return {
+        "src": "random-element",
+        "exact": True,
+        "tps": tps,
+        "t0": rnd.choice([0, 3 * tps, 17 * tps]),
+        "cap": cap,
+        "ramp": ramp,
+        "tasks": tasks,
+        "scripts": scripts,
+        "variant": random_variant(rnd),
+        "force_parallel": flavour != "plain",
+    }
+
+
 # ---------------------------------------------------------------------------------------------------
 # running cases + trace validation, shared by both drivers
 # ---------------------------------------------------------------------------------------------------
-def signature(prefix, clauses, case):
-    cfg = case["cfg"]
-    return {"clauses": sorted(clauses), "kind": cfg["kind"], "sched": cfg["sched"], "ramp": cfg["ramp"] > 0, "unit_mismatch": cfg["runit"] != cfg["tunit"]}
+def signature(prefix, clauses, case, item=None):
+    cfg = item["cfg"] if item is not None else case["cfg"]
+    sig = {"clauses": sorted(clauses), "kind": cfg["kind"], "sched": cfg["sched"], "ramp": cfg["ramp"] > 0, "unit_mismatch": cfg["runit"] != cfg["tunit"]}
+    if "tasks" in case:
+        sig.update(element=True, overcommitted=case["cap"] > 0, subtasks=len(case["tasks"]))
+    return sig
 
 
 def run_cases(cases, out, label, prefix, other_seen=None):
@@ -671,14 +936,22 @@ def run_cases(cases, out, label, prefix, other_seen=None):
     infos = []
     index = {}
     for ci, case in enumerate(cases):
-        item, info = execute(case)
-        item["id"] = "%s-%d" % (label, ci)
-        items.append(item)
-        infos.append(info)
-        index[item["id"]] = (case, info, item)
-        if case.get("exact", True) and not item["exact"]:
-            out.drift.append("%s: a dyadic case produced values off the tick grid (%s): the model expects tick-exact arithmetic" % (item["id"], ",".join(info["inexact"][:4])))
-        out.add_case({k: case[k] for k in ("cfg", "t0", "script", "incs")}, nontrivial=info["requests"] >= 2)
+        if "tasks" in case:  # a schedule element: one recorded run per (client, task allocation)
+            results = execute_element(case)
+            for ri, (item, info) in enumerate(results):
+                item["id"] = "%s-%d-%d" % (label, ci, ri)
+            out.add_case({k: case[k] for k in ("tps", "t0", "cap", "ramp", "tasks", "scripts")}, nontrivial=sum(i["requests"] for _, i in results) >= 2)
+        else:
+            item, info = execute(case)
+            item["id"] = "%s-%d" % (label, ci)
+            results = [(item, info)]
+            out.add_case({k: case[k] for k in ("cfg", "t0", "script", "incs")}, nontrivial=info["requests"] >= 2)
+        for item, info in results:
+            items.append(item)
+            infos.append(info)
+            index[item["id"]] = (case, info, item)
+            if case.get("exact", True) and not item["exact"]:
+                out.drift.append("%s: a dyadic case produced values off the tick grid (%s): the model expects tick-exact arithmetic" % (item["id"], ",".join(info["inexact"][:4])))
     if not items:
         raise tlc.MachineryError("no cases for %s" % label)
     verdicts = tracecheck.validate("ClientLoop", "TraceClientLoop", "TraceClientLoop.cfg", items, name="cltrace", chunk=1500)
@@ -698,20 +971,29 @@ def run_cases(cases, out, label, prefix, other_seen=None):
                 Violation(
                     ",".join(mine),
                     {k: case[k] for k in case if k != "default_note"},
-                    signature=signature(prefix, mine, case),
-                    detail="trace %s first failing event %d (%s)" % (tid, first, describe_event(item, first)),
+                    signature=signature(prefix, mine, case, item),
+                    detail="trace %s%s first failing event %d (%s)" % (tid, _who(item), first, describe_event(item, first)),
                 )
             )
     for tid, lines in verdicts.l2.items():
         case, info, item = index[tid]
         bad.add(tid)
-        out.drift.append("trace %s: event %d is not the step of ClientLoop.tla (%s)" % (tid, lines[0], describe_event(item, lines[0])))
+        out.drift.append("trace %s%s: event %d is not the step of ClientLoop.tla (%s)" % (tid, _who(item), lines[0], describe_event(item, lines[0])))
     out.traces_validated += len(items) - len(bad)
     return items, infos
 
 
+def _who(item):
+    if item["elem"]["use"]:
+        e = item["elem"]
+        return " [client %d of sub-task %d of element clients=%s cap=%d, executed by client %d]" % (e["i"], e["j"], e["clients"], e["cap"], item["cfg"]["client"])
+    return ""
+
+
 def describe_event(item, line):
     evs = item["events"]
+    if line == 0:
+        return "start of run: executing client %s" % item["cfg"]["client"]
     if 1 <= line <= len(evs):
         e = evs[line - 1]
         return "request %d: sched=%s ty=%s yat=%s issue=%s ws=%s we=%s ret=%s sample=%s" % (
@@ -733,7 +1015,7 @@ def replay(ctx, case, pid, prefix):
 
     out = Outcome(pid)
     items, infos = run_cases([case], out, "replay", prefix)
-    print("replayed on the real code: %d requests, aborted=%r" % (infos[0]["requests"], infos[0]["aborted"]))
+    print("replayed on the real code: %d run(s), %d requests, aborted=%r" % (len(infos), sum(i["requests"] for i in infos), [i["aborted"] for i in infos if i["aborted"]]))
     for v in out.violations:
         print("VIOLATION property=%s clause=%s %s" % (pid, v.clause, v.detail))
     for d in out.drift:
@@ -767,6 +1049,12 @@ def coverage_stats(items):
         "runs_with_unit_conversion": 0,
         "poisson_requests": 0,
         "deterministic_gaps": 0,
+        "requests_decided_within_1ms_before_schedule": 0,
+        "runs_through_real_allocator_and_adapter": 0,
+        "runs_of_wrapped_clients_on_overcommitted_element": 0,
+        "runs_with_rampup_delay_in_multi_subtask_parallel": 0,
+        "runs_with_completion_runner_not_completing": 0,
+        "runs_completed_by_runner": 0,
     }
     for it in items:
         cfg = it["cfg"]
@@ -776,6 +1064,18 @@ def coverage_stats(items):
             st["runs_with_rampup_delay"] += 1
         if it["end"]["aborted"]:
             st["runs_aborted_by_unit_check"] += 1
+        el = it["elem"]
+        if el["use"]:
+            st["runs_through_real_allocator_and_adapter"] += 1
+            if el["cap"] > 0 and cfg["idx"] >= el["cap"]:
+                st["runs_of_wrapped_clients_on_overcommitted_element"] += 1
+            if len(el["clients"]) > 1 and cfg["ramp"] * cfg["idx"] > 0:
+                st["runs_with_rampup_delay_in_multi_subtask_parallel"] += 1
+        if cfg.get("rc", 0) > 0:
+            if it["end"]["n"] >= cfg["rc"]:
+                st["runs_completed_by_runner"] += 1
+            elif cfg["kind"] == "iter":
+                st["runs_with_completion_runner_not_completing"] += 1
         if cfg["sched"] != "unthrottled" and cfg["tunit"] == "ops" and cfg["runit"] != "ops" and it["events"]:
             st["runs_with_unit_conversion"] += 1
         lastw = None
@@ -786,6 +1086,9 @@ def coverage_stats(items):
             st["requests"] += 1
             if e["sched"] > 0:
                 st["throttled_requests"] += 1
+                rem = t0 + e["sched"] - e["yat"]
+                if it["exact"] and 0 < rem and rem * 1000 <= cfg["tps"]:
+                    st["requests_decided_within_1ms_before_schedule"] += 1
                 if e["issue"] > t0 + e["sched"] + it["tol"]:
                     st["requests_behind_schedule"] += 1
                 elif e["yat"] < e["issue"]:
@@ -811,7 +1114,7 @@ def coverage_stats(items):
     return st
 
 
-def run_property(ctx, out, pid, prefix, mc_cfg, selftest, seed_off, n_sim, n_rand):
+def run_property(ctx, out, pid, prefix, mc_cfg, selftest, seed_off, n_sim, n_rand, n_edge=0, n_elem=0):
     """mc_cfg: cfg file for leg M; selftest: (cfg file, property expected to be violated, description)."""
     # ---- Leg M
     wd = tlc.prepare_workdir("ClientLoop", pid.lower() + "mc")
@@ -852,6 +1155,17 @@ def run_property(ctx, out, pid, prefix, mc_cfg, selftest, seed_off, n_sim, n_ran
     items, infos = run_cases(ap, out, "approx", prefix, other)
     all_items += items
     out.sample({"source": "random-approx (ms, non-dyadic: L1 with tolerance 3 ms, no L2)", "cfg": ap[0]["cfg"], "script": ap[0]["script"][:3], "recorded_requests": items[0]["events"][:2]})
+    if n_edge:
+        ed = [edge_case(rnd) for _ in range(n_edge)]
+        items, infos = run_cases(ed, out, "edge", prefix, other)
+        all_items += items
+        out.sample({"source": "random-edge (1/1024 s or 1/2048 s ticks, client back within the last ticks before its schedule)", "cfg": ed[0]["cfg"], "script": ed[0]["script"][:3], "recorded_requests": items[0]["events"][:3]})
+    if n_elem:
+        el = [random_element_case(rnd) for _ in range(n_elem)]
+        items, infos = run_cases(el, out, "elem", prefix, other)
+        all_items += items
+        out.sample({"source": "random-element (real Allocator -> ClientAllocations -> AsyncIoAdapter)", "element": {k: el[0][k] for k in ("tps", "t0", "cap", "ramp", "tasks")}, "first_run": {"elem": items[0]["elem"], "cfg": items[0]["cfg"], "recorded_requests": items[0]["events"][:2]}})
+        out.note("leg C2S (element): %d schedule elements allocated by the real Allocator and run by the real AsyncIoAdapter: %d client runs" % (len(el), len(items)))
     out.note("leg C2S: %d recorded runs accepted by TLC (L1 clauses %s*, and L2 on tick-exact runs)" % (out.traces_validated, prefix))
     if other:
         out.note("clauses of the sibling property failed on some run (reported by its own check): %s" % sorted(other))
